@@ -10,6 +10,7 @@ mod minimise;
 mod model;
 mod props;
 mod rng;
+mod rp;
 mod scenario;
 mod world;
 
